@@ -297,22 +297,29 @@ structure TabInv (total : Nat) (r : RState CItem) (A : List Int) : Prop where
   empty : ∀ i : Nat, (i : Int) ∉ A → ∀ y ∈ r.ops[i]?, y = []
   names : ∀ n ∈ cplain r.ops.flatten, isJumpName n = false
 
-theorem TabInv.enlarge {total : Nat} {r : RState CItem} {A : List Int} (h : TabInv total r A) : TabInv total (SsbScript.enlarge r) A := by
-  unfold SsbScript.enlarge
-  split
-  · refine ⟨by simp [h.li], by simp [h.lc, h.li], ?_, ?_, ?_, ?_⟩
-    · simpa [List.flatten_append, List.flatten_replicate_nil] using h.uniq
-    · simpa [List.flatten_append, List.flatten_replicate_nil] using h.full
-    · intro i hi y hy
-      simp only [List.getElem?_append] at hy
-      split at hy
-      · exact h.empty i hi y hy
-      · simp only [List.getElem?_replicate] at hy
+theorem TabInv.enlarge {total : Nat} {r r1 : RState CItem} {A : List Int} (h : TabInv total r A)
+    (he : SsbScript.enlarge r = .ok r1) : TabInv total r1 A ∧ r1.active = r.active := by
+  unfold SsbScript.enlarge at he
+  split at he
+  · cases he
+  · split at he
+    · simp only [Except.ok.injEq] at he
+      subst he
+      refine ⟨⟨by simp [h.li], by simp [h.lc, h.li], ?_, ?_, ?_, ?_⟩, rfl⟩
+      · simpa [List.flatten_append, List.flatten_replicate_nil] using h.uniq
+      · simpa [List.flatten_append, List.flatten_replicate_nil] using h.full
+      · intro i hi y hy
+        simp only [List.getElem?_append] at hy
         split at hy
-        · simp only [Option.mem_def, Option.some.injEq] at hy; exact hy.symm
-        · simp at hy
-    · simpa [List.flatten_append, List.flatten_replicate_nil] using h.names
-  · exact h
+        · exact h.empty i hi y hy
+        · simp only [List.getElem?_replicate] at hy
+          split at hy
+          · simp only [Option.mem_def, Option.some.injEq] at hy; exact hy.symm
+          · simp at hy
+      · simpa [List.flatten_append, List.flatten_replicate_nil] using h.names
+    · simp only [Except.ok.injEq] at he
+      subst he
+      exact ⟨h, rfl⟩
 
 theorem pySet_nonneg {α : Type} {l l' : List α} {i : Int} {v : α} (hi : 0 ≤ i) (h : pySet l i v = .ok l') :
     l' = l.set i.toNat v ∧ i.toNat < l.length := by
@@ -379,9 +386,6 @@ theorem TabInv.assign {total total' : Nat} {r r' : RState CItem} {A : List Int} 
         · exact h.names n h'
         · exact hnames n h'
 
-theorem enlarge_active {ι : Type} (r : RState ι) : (SsbScript.enlarge r).active = r.active := by
-  unfold SsbScript.enlarge; split <;> rfl
-
 theorem pySet_coros_inv {total : Nat} {r : RState CItem} {A : List Int} (h : TabInv total r A) {coros : List (Option String)} {v : Option String}
     (hc : pySet r.coros r.active v = .ok coros) : TabInv total { r with coros := coros } A :=
   ⟨h.li, by simp [pySet_length hc, h.lc], h.uniq, h.full, h.empty, h.names⟩
@@ -395,33 +399,42 @@ theorem TabInv.exitDef {total total' : Nat} {r r' : RState CItem} {A : List Int}
   | simple id =>
     simp only [SsbScript.exitDef, headerId] at ha hid hfresh ⊢
     have inv0 : TabInv total ({ r with active := id } : RState CItem) A := ⟨h.li, h.lc, h.uniq, h.full, h.empty, h.names⟩
-    have inv1 := inv0.enlarge
-    have e1 := enlarge_active ({ r with active := id } : RState CItem)
-    obtain ⟨a, b⟩ := inv1.assign (by rw [e1]; exact hid) (by rw [e1]; exact hfresh) ht hex hnames ha
-    rw [e1] at a b
-    exact ⟨a, b⟩
+    split at ha
+    · cases ha
+    · rename_i r1 he
+      obtain ⟨inv1, e1⟩ := inv0.enlarge he
+      simp only at e1
+      obtain ⟨a, b⟩ := inv1.assign (by rw [e1]; exact hid) (by rw [e1]; exact hfresh) ht hex hnames ha
+      rw [e1] at a b
+      exact ⟨a, b⟩
   | coro name =>
     simp only [SsbScript.exitDef, headerId] at ha hid hfresh ⊢
     have inv0 : TabInv total ({ r with active := r.active + 1 } : RState CItem) A := ⟨h.li, h.lc, h.uniq, h.full, h.empty, h.names⟩
-    have inv1 := inv0.enlarge
-    have e1 := enlarge_active ({ r with active := r.active + 1 } : RState CItem)
     split at ha
     · cases ha
-    · rename_i coros hc
-      have inv2 := pySet_coros_inv inv1 hc
-      obtain ⟨a, b⟩ := inv2.assign (by simp only; rw [e1]; exact hid) (by simp only; rw [e1]; exact hfresh) ht hex hnames ha
-      simp only [e1] at a b
-      exact ⟨a, b⟩
+    · rename_i r1 he
+      obtain ⟨inv1, e1⟩ := inv0.enlarge he
+      simp only at e1
+      split at ha
+      · cases ha
+      · rename_i coros hc
+        have inv2 := pySet_coros_inv inv1 hc
+        obtain ⟨a, b⟩ := inv2.assign (by simp only; rw [e1]; exact hid) (by simp only; rw [e1]; exact hfresh) ht hex hnames ha
+        simp only [e1] at a b
+        exact ⟨a, b⟩
   | forTarget id word target =>
     simp only [SsbScript.exitDef, headerId] at ha hid hfresh ⊢
     have inv0 : TabInv total ({ r with active := id } : RState CItem) A := ⟨h.li, h.lc, h.uniq, h.full, h.empty, h.names⟩
-    have inv1 := inv0.enlarge
-    have e1 := enlarge_active ({ r with active := id } : RState CItem)
     split at ha
     · cases ha
-    · obtain ⟨a, b⟩ := inv1.assign (by rw [e1]; exact hid) (by rw [e1]; exact hfresh) ht hex hnames ha
-      rw [e1] at a b
-      exact ⟨a, b⟩
+    · rename_i r1 he
+      obtain ⟨inv1, e1⟩ := inv0.enlarge he
+      simp only at e1
+      split at ha
+      · cases ha
+      · obtain ⟨a, b⟩ := inv1.assign (by rw [e1]; exact hid) (by rw [e1]; exact hfresh) ht hex hnames ha
+        rw [e1] at a b
+        exact ⟨a, b⟩
 
 theorem goG_spec (ast : List SRoutine) : ∀ (l : LState) (r : RState CItem) (A : List Int) (l' : LState) (r' : RState CItem),
     LblOK l → TabInv l.total r A →
@@ -587,25 +600,14 @@ theorem compileRaw_closed (ast : List SRoutine) (c : CompileOut) (hm : MarkersLa
 
 /-! ### the routine id check of repo commits 6c4e703 / 418dd8e
 
-`SsbScriptCompilerListener._enlarge_routine_info` now raises `SsbCompilerError` unless `0 ≤ id ≤ len(routine_infos)`.
-ESV/SsbScript/Model.lean (owned by C07) does not have this check yet; `compileRawChecked` puts it in front (exact at the
-level of exception classes: every other failure of the listener after that check is an `SsbCompilerError` too, and with
-valid ids `pySet` cannot fail). -/
+`SsbScriptCompilerListener._enlarge_routine_info` raises `SsbCompilerError` unless `0 ≤ id ≤ len(routine_infos)`;
+ESV/SsbScript/Model.lean has the check itself (`enlarge`), so the name below is just the model's `compileRaw`
+(kept for the driver op `comp.ssbs_compile` and the theorem name). -/
 
-def idsValidFrom : Int → Nat → List SRoutine → Bool
-  | _, _, [] => true
-  | active, len, rt :: rest =>
-    if headerId active rt.header < 0 ∨ headerId active rt.header > (len : Int) then false
-    else idsValidFrom (headerId active rt.header) (max len ((headerId active rt.header).toNat + 1)) rest
-
-def compileRawChecked (ast : List SRoutine) : Except Err CompileOut :=
-  if idsValidFrom (-1) 0 ast then compileRaw ast else .error .ssbCompilerError
+def compileRawChecked (ast : List SRoutine) : Except Err CompileOut := compileRaw ast
 
 theorem compileRawChecked_closed (ast : List SRoutine) (c : CompileOut) (hm : MarkersLast ast) (hi : IdsFresh ast)
-    (h : compileRawChecked ast = .ok c) : ClosedTables c.infos.length c.coros.length c.ops := by
-  unfold compileRawChecked at h
-  split at h
-  · exact compileRaw_closed ast c hm hi h
-  · cases h
+    (h : compileRawChecked ast = .ok c) : ClosedTables c.infos.length c.coros.length c.ops :=
+  compileRaw_closed ast c hm hi h
 
 end ESV.SsbScript.Cl
